@@ -10,6 +10,7 @@ SOURCES = {"hta/analyzers/cuda_kernel_analysis.py": ["get_frequent_cuda_kernel_s
            "hta/common/trace_call_graph.py": ["get_stack_of_node", "get_node_attributes"],
            "hta/common/trace_call_stack.py": ["get_descendants", "get_paths_to_leaves"]}
 TRANSLATE = [translate.gen_cmp]
+INPUT_CONTRACT = True        # the loaded frame is re-checked against the file (framework.input_contract)
 N_CASES = {"quick": 200, "thorough": 3000}
 RULE = ("generated well-formed single-rank and two-rank file sets (operators nested at several depths, the same operator name at different depths, launch calls "
         "with and without device partner, few kernel names so that patterns repeat); for every case the analysis is run for three operator names occurring in the "
